@@ -286,7 +286,9 @@ class Signal(np.lib.mixins.NDArrayOperatorsMixin):
 
     def contains(self, t, /):
         """Whether time(s) are within the bounds of the signal."""
-        if self.start_time is None:
+        # Nothing is contained without a start time, or in an empty signal (whose
+        # stop_time, start_time + 0 s, need not compare equal to its start_time)
+        if self.start_time is None or len(self) == 0:
             return np.zeros(t.shape, bool) if t.shape else False
 
         t0, t1 = self.start_time, self.stop_time
